@@ -188,10 +188,53 @@ fn gen_multi_rep(rng: &mut Rng) -> Vec<Rule> {
     rules
 }
 
+/// A rule that can match empty and repeats ITSELF (directly, or through a second rule) after a consuming
+/// literal: the repetition's body is nullable only through the reference back to the enclosing rule, and the
+/// grammar is not left-recursive.
+fn gen_self_rep(rng: &mut Rng) -> Vec<Rule> {
+    let through_second = rng.chance(1, 3);
+    let back = if through_second { id("r1") } else { id("r0") };
+    let body = match rng.below(4) {
+        0 => back.clone(),
+        1 => seq(back.clone(), Expr::Opt(b(s(" ")))),
+        2 => Expr::Choice(b(back.clone()), b(s("q"))),
+        _ => Expr::Choice(b(seq(s("a"), s("a"))), b(back.clone())),
+    };
+    let rep = match rng.below(3) {
+        0 => Expr::Rep(b(body)),
+        1 => Expr::RepOnce(b(body)),
+        _ => Expr::RepMin(b(body), 1 + rng.below(2) as u32),
+    };
+    let bracketed = match rng.below(3) {
+        0 => seq(s("x"), seq(rep, s("q"))),
+        1 => seq(s("x"), rep),
+        _ => seq(seq(s("x"), Expr::Opt(b(s(" ")))), seq(rep, s("q"))),
+    };
+    let empty_alt = match rng.below(3) {
+        0 => Expr::Opt(b(s("a"))),
+        1 => Expr::Rep(b(s("a"))),
+        _ => nullable_head(rng),
+    };
+    let r0 = if rng.chance(2, 3) { Expr::Choice(b(bracketed), b(empty_alt)) } else { Expr::Choice(b(seq(s("a"), s("q"))), b(Expr::Choice(b(bracketed), b(empty_alt)))) };
+    let mut rules = vec![Rule { name: "r0".into(), ty: any_ty(rng), expr: r0 }];
+    if through_second {
+        let e = match rng.below(3) {
+            0 => id("r0"),
+            1 => Expr::Choice(b(s("q")), b(id("r0"))),
+            _ => seq(Expr::Opt(b(s(" "))), id("r0")),
+        };
+        rules.push(Rule { name: "r1".into(), ty: any_ty(rng), expr: e });
+    }
+    rules
+}
+
 /// Repetitions whose body may succeed without consuming.
 fn gen_stuck_rep(rng: &mut Rng) -> Vec<Rule> {
     if rng.chance(1, 3) {
         return gen_multi_rep(rng);
+    }
+    if rng.chance(1, 4) {
+        return gen_self_rep(rng);
     }
     let mut rules = vec![];
     let nullable_rule = rng.chance(1, 2);
